@@ -159,7 +159,7 @@ def _work(task) -> core.Part:
                         if p.full("kamstrup") and p.full("kamstrup_ct"):
                             return p
     elif mode == "words":
-        for i, t in enumerate(w3 for w in cosemx.word_texts() for w3 in (w, w, w)):
+        for i, t in enumerate(w3 for w in cosemx.word_texts() + cosemx.edge_texts() for w3 in (w, w, w)):
             v = base_values(names)
             lv = "Kamstrup_V0001"
             if i % 3 == 0:
